@@ -273,6 +273,7 @@ func QuickHistories() []History {
 		{Name: "q19-move-below-later-parent-nodisc", Ops: []Op{reg(idA, 1), child(idA, idC, 2), reg(idB, 3), child(idB, idC, 2), {Kind: OpPoll, ID: idB}}},
 		{Name: "q20-subtree-moves-below-later-parent", Ops: []Op{reg(idA, 1), child(idA, idC, 2), child(idC, idD, 4), reg(idB, 3), child(idB, idC, 2), {Kind: OpPoll, ID: idB}}},
 		{Name: "q21-move-away-from-a-parent-above-7fffffff", Ops: []Op{reg(idA, 1), child(idA, idC, 2), child(idC, idD, 4), reg(idB, 3), child(idB, idD, 4), {Kind: OpPoll, ID: idB}}},
+		{Name: "q22-refused-listeners", Ops: []Op{{Kind: OpLAdd, L: ext("ext1", "ep1")}, {Kind: OpLAdd, L: ext("ext2", "ep1")}, {Kind: OpLAdd, L: smb("ext1", "pipe9")}, reg(idA, 1), {Kind: OpLAdd, L: ext("ext3", "ep3")}}},
 		{Name: "q08-listeners", Ops: []Op{{Kind: OpLAdd, L: smb("smb1", "pipe1")}, {Kind: OpLAdd, L: ext("ext1", "ep1")}, {Kind: OpLRemove, Name: "smb1"}, {Kind: OpLAdd, L: smb("smb2", `\\.\pipe\x`)}, {Kind: OpLRemove, Name: "ext1"}, {Kind: OpLAdd, L: smb("smb1", "pipe1b")}}},
 		{Name: "q09-mixed", Ops: []Op{{Kind: OpLAdd, L: smb("s", "007")}, reg(idA, 1), {Kind: OpLAdd, L: ext("e", "1e3")}, child(idA, idC, 2), {Kind: OpLRemove, Name: "s"}, {Kind: OpExit, ID: idA}}},
 		{Name: "q10-http", Ops: []Op{{Kind: OpLAdd, L: httpL("h1", nil)}, reg(idA, 1), {Kind: OpLAdd, L: httpL("h2", map[string]string{"Headers": "", "Uris": "", "Proxy Enabled": "false", "HostHeader": "", "PortConn": ""})}}},
